@@ -882,6 +882,29 @@ func (tb *TB) FArith(op Op, a, b *Term) *Term {
 		return tb.BV(32, uint64(math.Float32bits(r)))
 	}
 	raw := tb.mk(&Term{op: op, w: a.w, args: []*Term{a, b}})
+	// x / 2^k and x * 2^k with a constant power of two are exact exponent adjustments while the
+	// result stays normal: keep the solver out of fp.div/fp.mul for that case.
+	if a.w == 64 && (op == OpFDivRaw || op == OpFMulRaw) {
+		x, c := a, b
+		if op == OpFMulRaw && a.IsConst() {
+			x, c = b, a
+		}
+		if c.IsConst() && c.v&((1<<52)-1) == 0 && c.v>>63 == 0 {
+			ce := int64(c.v>>52) & 0x7FF
+			if ce > 0 && ce < 0x7FF {
+				k := ce - 1023 // c = 2^k
+				if op == OpFDivRaw {
+					k = -k
+				}
+				exp := tb.ZExt(tb.Extract(x, 62, 52), 64)
+				ne := tb.Add(exp, tb.BV(64, uint64(k)))
+				okExp := tb.And(tb.And(tb.SLt(tb.BV(64, 0), exp), tb.SLt(exp, tb.BV(64, 0x7FF))),
+					tb.And(tb.SLt(tb.BV(64, 0), ne), tb.SLt(ne, tb.BV(64, 0x7FF))))
+				scaled := tb.Add(x, tb.BV(64, uint64(k)<<52))
+				raw = tb.Ite(okExp, scaled, tb.Ite(tb.FIsZero(x), x, raw))
+			}
+		}
+	}
 	// invalid operations produce the default NaN; NaN operands propagate (first operand wins), quieted.
 	var invalid *Term
 	switch op {
